@@ -463,7 +463,9 @@ def c18_stages(tier):
 # ------------------------------------------------------------------------------------------ renderings (C19)
 def c19_stages(tier):
     return [Stage('format-rows', 'Trace_Format', mc=('MC_Format', 'MC_Format_l2.cfg' if tier == 'thorough' else 'MC_Format_l1.cfg'), shard_events=1000, mc_workers=12),
-            Stage('format-trees', 'Trace_Format', mc=('MC_AffTree', 'MC_AffTree_format_q.cfg'), shard_events=300, mc_workers=12)]
+            Stage('format-trees', 'Trace_Format', mc=('MC_AffTree', 'MC_AffTree_format_q.cfg'), shard_events=300, mc_workers=12),
+            # K = 4: Display of nodes with up to four children (DOT export exists for binary trees only)
+            Stage('format-trees-k4', 'Trace_Format', mc=('MC_AffTree', 'MC_AffTree_format_k4.cfg'), shard_events=300, mc_workers=12)]
 
 
 def fault_stages(tier):
